@@ -20,6 +20,22 @@ func (c *FnCtx) exec(st *State, s ast.Stmt) {
 	if st.dead() {
 		return
 	}
+	if c.C != nil && c.C.Partial && len(c.frames) == 1 {
+		// `partial` contracts: a statement outside the verified subset ends the path; the
+		// pruned paths are listed in the evidence and nothing is claimed about them
+		nl := len(c.loops)
+		defer func() {
+			if r := recover(); r != nil {
+				if u, ok := r.(unsupported); ok {
+					c.Pruned = append(c.Pruned, u.msg)
+					st.pc = "false"
+					c.loops = c.loops[:nl]
+					return
+				}
+				panic(r)
+			}
+		}()
+	}
 	env := &Env{st: st}
 	switch x := s.(type) {
 	case *ast.BlockStmt:
